@@ -251,6 +251,30 @@ CLAIMS["C18"] = dict(
               "nlsat (QF_NRA) over exact reals",
     ref="3/C18")
 
+CLAIMS["C05"] = dict(
+    text="The real get_emodulus (both computation routes), normalize, "
+         "scale_feature/scale_area_um/scale_volume/scale_emodulus, "
+         "get_pixelation_delta and load_lut run on an exact-real symbolic "
+         "LUT (3..5 rows + metadata), symbolic events and set-up; "
+         "scipy.interpolate.griddata, np.exp and get_viscosity are "
+         "uninterpreted with explicit congruence. nlsat proves for every "
+         "path that interpolation nodes = normalised LUT (all nodes, "
+         "independent of the events), look-up point = (scaled area|volume, "
+         "pixelation-corrected deformation), result factor = "
+         "(Q/Q0)(eta/eta0)(L0/L)^3 for both routes (=> routes agree, events "
+         "independent, proportional to eta and Q), invariance under a joint "
+         "geometric rescaling, inputs and LUT unmodified, no state between "
+         "calls.",
+    note="Trusted: z3/nlsat, symx, numpy shim with LUT column views, "
+         "positive homogeneity of griddata in its values. NOT covered (not "
+         "encodable): the interpolation inside griddata (Qhull) incl. 'NaN "
+         "exactly outside the support', built-in LUT contents, viscosity "
+         "formulas, floating-point rounding, extrapolate=True.",
+    technique="symbolic execution of the real Python code objects + z3 "
+              "nlsat (QF_NRA) with manually Ackermannised uninterpreted "
+              "kernels",
+    ref="3/C05")
+
 NOT_APPLICABLE = {
 }
 
